@@ -25,6 +25,8 @@ type Solver struct {
 	dur     time.Duration
 	maxQ    time.Duration
 	unknown int
+	nUnsat  int
+	nSat    int
 	bin     string
 	timeout int // ms per query
 }
@@ -158,8 +160,13 @@ func (s *Solver) check() string {
 	if strings.HasPrefix(line, "(error") || (line != "sat" && line != "unsat" && line != "unknown") {
 		panic(engineError{"solver error: " + line})
 	}
-	if line == "unknown" {
+	switch line {
+	case "unknown":
 		s.unknown++
+	case "unsat":
+		s.nUnsat++
+	case "sat":
+		s.nSat++
 	}
 	return line
 }
